@@ -98,12 +98,14 @@ pub fn ansi_16_color_name_to_number(name: &str) -> Option<u8> {
 }
 
 fn ansi_16_color_number_to_name(n: u8) -> Option<&'static str> {
-    for (k, _n) in &*ANSI_16_COLORS {
-        if *_n == n {
-            return Some(*k);
-        }
-    }
-    None
+    // Several names map to one number ("brightred", "bright-red"): choose among them in a
+    // fixed way (shortest, then alphabetically first), not by hash map iteration order, so
+    // that e.g. --show-config prints the same name on every run.
+    ANSI_16_COLORS
+        .iter()
+        .filter(|(_, _n)| **_n == n)
+        .map(|(k, _)| *k)
+        .min_by_key(|k| (k.len(), *k))
 }
 
 /// The color mode determines some default color choices
